@@ -72,7 +72,9 @@ pub(super) fn render_debug_info(
                     f,
                     "     i {}{} {}",
                     " ".repeat(span.start_col as usize),
-                    "^".repeat(span.end_col as usize - span.start_col as usize),
+                    // (line numbers saturate at 16 bits: beyond that a span over several
+                    // lines can look like one that ends before it starts)
+                    "^".repeat((span.end_col as usize).saturating_sub(span.start_col as usize)),
                     kind,
                 ));
             }
